@@ -53,6 +53,12 @@ func c12Spec(rng *rand.Rand, i int) (*SessSpec, string) {
 		// still unanswered. vBucket 0 must be requested again and keep being streamed.
 		last := sp.NumVB - 1
 		sp.ReqHold = map[int]int{last: 1}
+		if rng.Intn(3) == 0 {
+			// ... or a final end in that window: it is counted, the vBucket is not requested again
+			sp.StartSteps = []Step{{Op: "waithold", N: 1}, {Op: "waitopen", VB: 0}, {Op: "end", VB: 0, St: finalStatus[rng.Intn(len(finalStatus))]}, {Op: "sleep", Ms: 40}, {Op: "releasereq"}}
+			sp.Steps = []Step{{Op: "barrier"}, {Op: "metrics"}, {Op: "append", VB: 1, Items: genSnap(rng, o, &ctr)}, {Op: "barrier"}, {Op: "metrics"}, {Op: "waitstop", Ms: 150}}
+			break
+		}
 		sp.StartSteps = []Step{{Op: "waithold", N: 1}, {Op: "waitopen", VB: 0}, {Op: "end", VB: 0, St: transientStatus[rng.Intn(4)]}, {Op: "waitreopen", VB: 0, N: 2}, {Op: "releasereq"}}
 		reqs[0] = 2
 		sp.Steps = []Step{{Op: "barrier"}, {Op: "metrics"}, {Op: "append", VB: 0, Items: genSnap(rng, o, &ctr)}, {Op: "barrier"}, {Op: "metrics"}, {Op: "waitstop", Ms: 150}}
